@@ -449,19 +449,18 @@ Qed.
 
 (* F2_ab,kl + conj(F2_ba,lk) = conj(B_ak) B_bl : the first-order generalized filter function *)
 Theorem F2_plus_adjoint evs Vs Qs ncoeffs dts ts a b k l o :
-  0 <= thr2 <= thr ->
+  0 <= thr -> 0 <= thr2 ->
   (forall N, In N nopers -> fherm d (toF N)) -> (forall Ck, In Ck basis -> fherm d (toF Ck)) ->
   length evs = length dts -> length Vs = length dts ->
   (length dts <= length Qs)%nat -> (length dts <= length ts)%nat -> length ncoeffs = na ->
   (a < na)%nat -> (b < na)%nat -> (k < nk)%nat -> (l < nk)%nat -> (o < no)%nat ->
-  no_taylor thr evs dts o ->
+  no_taylor thr evs dts o -> no_taylor thr2 evs dts o ->
   let F2 := second_order_ff RO d thr thr2 evs Vs Qs omega basis nopers ncoeffs dts ts (None, None) in
   let Bm := control_matrix_from_scratch RO d thr evs Vs Qs omega basis nopers ncoeffs dts ts in
   cadd' (a5get RO F2 a b k l o) (cconj' (a5get RO F2 b a l k o)) =
   cmul' (cconj' (a3get RO Bm a k o)) (a3get RO Bm b l o).
 Proof.
-  intros [Hthr2 Hle] HN HC H1 H2 H3 H4 H5 Ha Hb Hk Hl Ho Hmask F2 Bm. unfold F2, Bm.
-  assert (Hthr : 0 <= thr) by lra. pose proof (no_taylor_mono _ _ _ _ _ Hle Hmask) as Hmask2.
+  intros Hthr Hthr2 HN HC H1 H2 H3 H4 H5 Ha Hb Hk Hl Ho Hmask Hmask2 F2 Bm. unfold F2, Bm.
   rewrite !second_order_ff_get by auto.
   unfold control_matrix_from_scratch. rewrite !cm_loop_sum by auto. rewrite !a3get_a3zero by auto.
   rewrite so_spec_adjoint.
